@@ -83,13 +83,20 @@ DIRECTED_SRC = (
     "from dataclasses import dataclass, field\nfrom typing import *\n"
     "@dataclass\nclass Fz:\n    a: int = 0\n    b: str = ''\n    c: bool = False\n    d: Optional[int] = None\n"
     "    e: Literal[0] = 0\n    f: Literal[''] = ''\n    g: Literal[False] = False\n    h: Literal[None] = None\n"
-    "    i: Any = 0\n    j: float = 0.0\n    k: Tuple[()] = ()\n")
+    "    i: Any = 0\n    j: float = 0.0\n    k: Tuple[()] = ()\n"
+    # (/repo fcaa28c) strategies registered under the origin class apply to every List[..] / Dict[..] position, and only to those
+    "    l: List[int] = field(default_factory=list)\n    m: Dict[str, int] = field(default_factory=dict)\n"
+    "    n: Optional[List[str]] = None\n    o: Tuple[int, ...] = ()\n"
+    "    class Config:\n        serialization_strategy = {list: {'serialize': _c20_ser_str}, dict: {'serialize': _c20_ser_any}}\n"
+).replace("@dataclass\nclass Fz", "def _c20_ser_str(v) -> str:\n    return str(v)\ndef _c20_ser_any(v) -> Any:\n    return v\n@dataclass\nclass Fz")
 DIRECTED_EXPECT = {
     "a": {"type": "integer", "default": 0}, "b": {"type": "string", "default": ""}, "c": {"type": "boolean", "default": False},
     "d": {"anyOf": [{"type": "integer"}, {"type": "null"}], "default": None},
     "e": {"const": 0, "default": 0}, "f": {"const": "", "default": ""}, "g": {"const": False, "default": False},
     "h": {"const": None, "default": None}, "i": {"default": 0}, "j": {"type": "number", "default": 0.0},
-    "k": {"type": "array", "default": [], "maxItems": 0}}
+    "k": {"type": "array", "default": [], "maxItems": 0},
+    "l": {"type": "string"}, "m": {}, "n": {"anyOf": [{"type": "string"}, {"type": "null"}], "default": None},
+    "o": {"type": "array", "default": [], "items": {"type": "integer"}}}
 DIRECTED_DOCS = [{"const": 0}, {"const": ""}, {"const": False}, {"const": None}, {"const": None, "default": 0},
                  {"default": ""}, {"default": False}, {"default": None}, {"enum": [0, "", False, None], "default": []},
                  {"type": "object", "properties": {"$ref": {"const": 0}}, "additionalProperties": False},
@@ -199,7 +206,7 @@ def defaults_part(ctx: vlib.Ctx):
 # types that live in ANOTHER module: string annotations resolvable only there (NamedTuple / TypedDict / dataclass), and a third-party
 # type that is serializable only through a strategy (from Config, from Config.dialect, from both), with defaults of every form
 LIB_HEAD = ("import __C20_LIB__ as lib\nfrom __C20_LIB__ import LNT, LNTd, LTD, LD, Pt\nfrom dataclasses import dataclass, field\nfrom typing import *\n"
-            "from mashumaro.config import BaseConfig, ADD_DIALECT_SUPPORT\nfrom mashumaro.dialect import Dialect\nfrom mashumaro import DataClassDictMixin\n"
+            "from mashumaro.config import BaseConfig, ADD_DIALECT_SUPPORT\nfrom mashumaro.dialect import Dialect\nfrom mashumaro import DataClassDictMixin, field_options\n"
             "def ser_str(v) -> str:\n    return str(v)\n"
             "class DP(Dialect):\n    serialization_strategy = {Pt: lib.PT_STRATEGY}\n"
             "class DPo(Dialect):\n    omit_none = True\n    omit_default = True\n    serialize_by_alias = True\n    serialization_strategy = {Pt: lib.PT_STRATEGY}\n"
@@ -209,6 +216,16 @@ XMOD_FORMS = ["LNTd", "List[LNTd]", "Optional[LNTd]", "LNT", "List[LNT]", "Optio
 TP_FORMS = [("Pt", "Pt(1)"), ("Optional[Pt]", "None"), ("Optional[Pt]", "Pt(2)"), ("Tuple[Pt, ...]", "(Pt(1), Pt())"), ("Tuple[Pt, int]", "(Pt(3), 1)"),
             ("List[Pt]", "field(default_factory=list)"), ("Dict[str, Pt]", "field(default_factory=dict)"), ("Union[Pt, None, int]", "Pt(4)"),
             ("Final[Pt]", "Pt(5)"), ("Pt", None)]
+# field-level options on the third-party type (and on a supported one), with explicit defaults: the default is rendered through them
+TP_FIELD_FORMS = [
+    ("Pt", "field(default=Pt(1), metadata=field_options(serialization_strategy=lib.PT_STRATEGY))"),
+    ("Pt", "field(default=Pt(2), metadata=field_options(serialize=lib.pt_ser, deserialize=Pt))"),
+    ("Pt", "field(default=Pt(3), metadata={'serialization_strategy': {'serialize': lib.pt_ser_s, 'deserialize': Pt}})"),
+    ("int", "field(default=5, metadata={'serialize': ser_str})"),
+    ("int", "field(default=0, metadata={'serialize': str})"),
+    ("Optional[int]", "field(default=None, metadata={'serialization_strategy': {'serialize': ser_str}})"),
+    ("Pt", "field(metadata=field_options(serialization_strategy=lib.PT_STRATEGY))"),
+]
 TP_CONFIGS = [["serialization_strategy = {Pt: lib.PT_STRATEGY}"], ["dialect = DP"], ["dialect = DPo", "aliases = {'x': 'x x'}"],
               ["dialect = DI", "serialization_strategy = {Pt: lib.PT_STRATEGY}"], ["dialect = DP", "omit_default = True", "omit_none = True"],
               ["dialect = DP", "code_generation_options = [ADD_DIALECT_SUPPORT]", "lazy_compilation = True"]]
@@ -227,6 +244,10 @@ def library_part(ctx: vlib.Ctx):
             base_cls = "(DataClassDictMixin)" if (i + j) % 3 == 0 else ""
             src = LIB_HEAD + f"@dataclass\nclass X{base_cls}:\n    x: {ty}" + (f" = {dv}" if dv else "") + "\n    class Config(BaseConfig):\n" + "".join(f"        {c}\n" for c in cfg)
             cases.append((f"third-party {ty} = {dv} Config({'; '.join(cfg)})", src, (i + j) % 2 == 0))
+    for i, (ty, dv) in enumerate(TP_FIELD_FORMS):
+        for j, cfg in enumerate(([], ["omit_default = True", "omit_none = True"], ["serialize_by_alias = True", "aliases = {'x': 'y'}"])):
+            src = LIB_HEAD + f"@dataclass\nclass X:\n    x: {ty} = {dv}\n" + ("    class Config(BaseConfig):\n" + "".join(f"        {c}\n" for c in cfg) if cfg else "")
+            cases.append((f"field-level option {ty} = {dv} Config({'; '.join(cfg)})", src, (i + j) % 2 == 0))
     for label, src, ar in cases:
         case = {"source": src, "lib": LIB_SRC, "roots": ["X"], "mode": "single", "feats": [{}], "params": dict(base, all_refs=ar)}
         res = c20_oracle.run_case(case)
